@@ -8,9 +8,12 @@ SPEC = {
     "needs_plz": False,
     "level": "proof",
     "level_text": (
-        "PARTIAL. The property as stated is refuted for the pinned code (C21_exact_refuted) with seven machine-checked "
-        "witnesses, one per root cause: hidden-dir-contents, regex-metacharacters-unescaped, qmark-matches-slash, "
-        "leading-doublestar-root-package, package-root-returned, negated-class-matches-slash, plz-out-name-any-depth. "
+        "PARTIAL. Three of the seven recorded defects are repaired by fix: commits (322a687 `?` -> `[^/]`, d6bcce1 leading "
+        "`^.*/` -> `^(.*/)?`, a32e1e7 `( ) | { }` escaped); the model follows through the regenerated ReplaceAll chain "
+        "(`opts`), C21_repairs shows each repair removes its witness, and the matcher hypotheses relax accordingly. The "
+        "property as stated is still refuted for the current code (C21_exact_refuted, C21_witnesses_persist) by four "
+        "remaining root causes: hidden-dir-contents, package-root-returned, negated-class-matches-slash, "
+        "plz-out-name-any-depth; the witnesses of all seven on the unrepaired structure stay as theorems about `run`. "
         "Proved for all inputs (unbounded, structural induction): C21_match_exact (filepath.Match on the joined pattern and the "
         "regexp toRegexString produces, as denoted on parsed patterns, accept a path iff the pattern matches it segment by "
         "segment -- `*`, `?`, `[class]`, literals inside one component, `**` = whole components -- whenever none of the four "
